@@ -235,6 +235,26 @@ def shipped_printers():
     return [x for x in out if not x.endswith(':pretty_ordereddict') or x.startswith('pretty_stdlib.py')]
 
 
+def timedelta_table():
+    """pretty_timedelta as the source has it: the keyword names of its `attrs` list, in order, and every `divmod(x, N)` it performs
+    (name of the dividend, constant divisor), in order, and its non-zero integer constants, sorted"""
+    tree = _parse('prettyprinter/pretty_stdlib.py')
+    fn = next(n for n in ast.walk(tree) if isinstance(n, ast.FunctionDef) and n.name == 'pretty_timedelta')
+    attrs, divmods = [], []
+    for node in ast.walk(fn):
+        if isinstance(node, ast.Assign) and any(isinstance(t, ast.Name) and t.id == 'attrs' for t in node.targets) and isinstance(node.value, ast.List):
+            for el in node.value.elts:
+                if isinstance(el, ast.Tuple) and el.elts and isinstance(el.elts[0], ast.Constant):
+                    attrs.append(str(el.elts[0].value))
+    calls = [n for n in ast.walk(fn) if isinstance(n, ast.Call) and isinstance(n.func, ast.Name) and n.func.id == 'divmod' and len(n.args) == 2]
+    calls.sort(key=lambda n: (n.lineno, n.col_offset))
+    for c in calls:
+        divisor = c.args[1].value if isinstance(c.args[1], ast.Constant) and isinstance(c.args[1].value, int) else 0
+        divmods.append((ast.unparse(c.args[0]), divisor))
+    consts = sorted(n.value for n in ast.walk(fn) if isinstance(n, ast.Constant) and type(n.value) is int and n.value != 0)
+    return attrs, divmods, consts
+
+
 def lean_str_list(xs):
     return '[' + ', '.join('"%s"' % x for x in xs) + ']'
 
@@ -266,6 +286,11 @@ def generate():
     lines.append('def sharedState : List String := ' + lean_str_list(shared_state()))
     lines.append('/-- every printer the core package registers (see translator.shipped_printers) -/')
     lines.append('def shippedPrinters : List String := ' + lean_str_list(shipped_printers()))
+    attrs, divmods, consts = timedelta_table()
+    lines.append('/-- pretty_timedelta: keyword names of `attrs`, every divmod(x, N), non-zero integer constants (see translator.timedelta_table) -/')
+    lines.append('def timedeltaAttrs : List String := ' + lean_str_list(attrs))
+    lines.append('def timedeltaDivmods : List (String × Nat) := [' + ', '.join('("%s", %d)' % (a, b) for a, b in divmods) + ']')
+    lines.append('def timedeltaIntConsts : List Nat := [' + ', '.join(str(c) for c in consts) + ']')
     lines.append('')
     lines.append('end PP.Generated')
     return '\n'.join(lines) + '\n'
